@@ -578,6 +578,10 @@ type Mutation { m: Int }
 `
 
 var handRuleDocs = []string{
+	// oneOf input objects whose single entry is a variable: undefined anywhere, defined by another operation only, in
+	// an unreached fragment; nullable with a default (the default does not make it non-null)
+	`{ one(x: {a: $nope}) }`, `query A { ...F1 } query B($v: Int!) { ...F1 } fragment F1 on Query { one(x: {a: $v}) }`, `{ s } fragment F2 on Query { one(x: {b: $w}) }`,
+	`query($n: String = "x") { one(x: {b: $n}) }`, `query($n: Int = 1) { one(x: {a: $n}) }`, `query($n: Int = null) { one(x: {a: $n}) }`, `query($n: Int! = 1) { one(x: {a: $n}) }`,
 	// an unknown field on an abstract type that only the SECOND possible type has (the suggestion path looks at
 	// the possible types), then a condition on the first possible type inside the same abstract type
 	`{ i { y ... on A { z } } }`, `{ i { y ...FA } j: i { ... on A { x } ... on B { y } } } fragment FA on A { x }`, `{ u { y ... on A { x } ... on B { x } } }`,
